@@ -38,6 +38,7 @@ class Harness:
         self.file = None
         self.line = None
         self.stubbing = False
+        self.needs = []
 
     @property
     def full(self):
@@ -61,12 +62,18 @@ def load_index():
         if module == "mod":
             continue
         cur = None
+        needs = []
         with open(path) as f:
             for ln, line in enumerate(f, 1):
                 s = line.strip()
+                if s.startswith("// @needs"):
+                    # file-level: generated modules (vlib/gen/<name>.py) this harness file uses as super::gen_<name>
+                    needs += [x[4:] for x in s[len("// @needs"):].split() if x.startswith("gen:")]
+                    continue
                 if s.startswith("// @check"):
                     cur = Harness()
                     cur.module, cur.file = module, path
+                    cur.needs = needs
                     for kv in s[len("// @check"):].split():
                         k, _, v = kv.partition("=")
                         if k == "props":
